@@ -359,6 +359,35 @@ type ResultCase struct {
 	All []ssa.Value
 }
 
+// Leaf is where a value ultimately comes from when helper returns are followed: the value in the frame of the
+// function that produced it, the facts of every frame on the way (unioned), and that frame's return.
+type Leaf struct {
+	Val ssa.Value
+	K   Conj
+	Fn  *ssa.Function
+	Ret *ssa.Return
+}
+
+// Leaves follows v through the returns of module helpers (ResultCases) up to depth levels; stop(call) keeps a
+// call result as a leaf (used for the calls a rule wants to see itself).
+func (s *Sem) Leaves(k Conj, fn *ssa.Function, ret *ssa.Return, v ssa.Value, stop func(*ssa.Call) bool, depth int) []Leaf {
+	v = Unwrap(v)
+	if cl, _ := callResult(v); cl != nil && depth > 0 && (stop == nil || !stop(cl)) {
+		if cases, ok := s.ResultCases(k, v); ok && len(cases) > 0 {
+			var out []Leaf
+			for _, rc := range cases {
+				kk := k
+				for _, f := range rc.K.List() {
+					kk = kk.With(f)
+				}
+				out = append(out, s.Leaves(kk, rc.Fn, rc.Ret, rc.Val, stop, depth-1)...)
+			}
+			return out
+		}
+	}
+	return []Leaf{{v, k, fn, ret}}
+}
+
 // ResultCases enumerates, for v = the i-th result of a call to a module function, the (return, disjunct) pairs
 // of the callee that are compatible with what conjunction k of the caller says about the call's results
 // (for instance err == nil). ok is false when v is not such a call result.
